@@ -227,6 +227,13 @@ func runC05(c *Ctx) {
 			success: [][]string{{"nonempty($0.Mount.ContainerPath)", "nonempty($0.Mount.HostPath)"}},
 			why:     "mounts need non-empty host and container paths"},
 		{pkg: "cdi", name: "(*DeviceNode).Validate",
+			// nothing is left of the permissions after trimming r, w and m  ==  every rune of
+			// them is r, w or m (strings.Trim with a cutset removes exactly leading/trailing runes
+			// of the set: the remainder is empty iff all runes are in it)
+			syn: map[string]string{
+				`empty(strings.Trim($0.DeviceNode.Permissions,"rwm"))`:    "loopdone($0.DeviceNode.Permissions)",
+				`nonempty(strings.Trim($0.DeviceNode.Permissions,"rwm"))`: "loop($0.DeviceNode.Permissions)&$0.DeviceNode.Permissions[*] != 109&$0.DeviceNode.Permissions[*] != 114&$0.DeviceNode.Permissions[*] != 119",
+			},
 			success:  [][]string{{"loopdone($0.DeviceNode.Permissions)", "nonempty($0.DeviceNode.Path)", `$0.DeviceNode.Type in {"","b","c","p","u"}`}},
 			failures: [][]string{{"loop($0.DeviceNode.Permissions)", "$0.DeviceNode.Permissions[*] != 109", "$0.DeviceNode.Permissions[*] != 114", "$0.DeviceNode.Permissions[*] != 119"}},
 			why:      "device nodes need a path, a type in the table and permissions within rwm"},
@@ -332,11 +339,15 @@ func c05CheckValidator(c *Ctx, vs validatorSpec) {
 		// equivalent spellings of one condition (justified per validator) count as the same
 		for _, lst := range [][]retInfo{succ, fail} {
 			for i := range lst {
-				for k, g := range lst[i].guards {
+				var out []string
+				for _, g := range lst[i].guards {
 					if to, ok := vs.syn[g]; ok {
-						lst[i].guards[k] = to
+						out = append(out, strings.Split(to, "&")...)
+					} else {
+						out = append(out, g)
 					}
 				}
+				lst[i].guards = out
 				sort.Strings(lst[i].guards)
 			}
 		}
@@ -841,8 +852,32 @@ func c05IsEmpty(c *Ctx) {
 	}
 	var trueGuards [][]string
 	for _, ret := range ir.NormalReturns(fn) {
-		if b, ok := ir.ConstBool(ret.Results[0]); ok && b {
-			trueGuards = append(trueGuards, normGuards(fn, c.guardsOf(fn, ret)))
+		// `return a && b && c` is `if !a { return false } ... return c`: per incoming edge of the
+		// returning block, and a returned comparison read as the condition it is
+		type alt struct {
+			v  ssa.Value
+			gs []string
+		}
+		var alts []alt
+		res := ret.Results[0]
+		if phi, isPhi := res.(*ssa.Phi); isPhi && phi.Block() == ret.Block() {
+			for k, e := range phi.Edges {
+				alts = append(alts, alt{e, c.edgeGuards(fn, ret.Block().Preds[k], ret.Block())})
+			}
+		} else {
+			alts = append(alts, alt{res, c.guardsOf(fn, ret)})
+		}
+		for _, a := range alts {
+			if b, ok := ir.ConstBool(a.v); ok {
+				if b {
+					trueGuards = append(trueGuards, normGuards(fn, a.gs))
+				}
+				continue
+			}
+			if _, isBin := a.v.(*ssa.BinOp); isBin {
+				d := c.condDesc(&ssa.If{Cond: a.v}, 0, nil)
+				trueGuards = append(trueGuards, normGuards(fn, append(append([]string{}, a.gs...), d)))
+			}
 		}
 	}
 	if len(trueGuards) != 1 {
